@@ -765,6 +765,15 @@ def b_getattr(ex, st, args, kwargs, cx, node):
     name = z3.simplify(ex.o.s(args[1]))
     if not z3.is_string_value(name):
         raise Unsupported("getattr with a dynamic name")
+    if name.as_string() == "__module__":
+        # the defining module of a class / the __module__ attribute of any other object (None if it has none)
+        w, V = ex.w, ex.w.V
+        v = args[0].e
+        res = z3.If(V.is_cls(v), V.str(w.fun("class_module", w.Cls, "str")(V.c(v))), w.fun("obj_module", "V", "V")(v))
+        st = st.clone()
+        st.assume(z3.Or(V.is_none(res), V.is_str(res)))
+        yield st, SV(res)
+        return
     yield from ex.getattr_(st, args[0], name.as_string(), cx)
 
 
@@ -817,3 +826,68 @@ def b_partial(ex, st, args, kwargs, cx, node):
 
 
 BUILTIN_FUNCS["partial"] = b_partial
+
+
+def b_repr(ex, st, args, kwargs, cx, node):
+    yield st, ex.o.str_(ex.text_of(st, args[0], "r"))
+
+
+trusted("inspect.getfullargspec", "returns a fresh 7-tuple (args: new list of str, varargs: str|None, varkw: str|None, defaults, kwonlyargs: new list of str, "
+        "kwonlydefaults, annotations: dict) and has no side effect")
+
+
+def x_getfullargspec(ex, st, args, kwargs, cx):
+    o, w, V = ex.o, ex.w, ex.w.V
+    st = st.clone()
+    a = o.seq_new(st, "list", [])
+    st.wr("$len", o.r(a), w.fresh("nargs", z3.IntSort()))
+    st.wr("$items", o.r(a), w.fresh("argnames", w.SORTS["items"]))
+    k = o.seq_new(st, "list", [])
+    st.wr("$len", o.r(k), w.fresh("nkw", z3.IntSort()))
+    st.wr("$items", o.r(k), w.fresh("kwnames", w.SORTS["items"]))
+    st.assume(z3.And(st.rd("$len", o.r(a)) >= 1, st.rd("$len", o.r(k)) >= 0))
+    va, vk = SV(w.freshV("varargs")), SV(w.freshV("varkw"))
+    for v in (va, vk):
+        st.assume(z3.Or(V.is_none(v.e), V.is_str(v.e)))
+    ann = o.dict_new(st)
+    for arr in ("$map", "$dom", "$len", "$keys", "$pos"):
+        st.wr(arr, o.r(ann), w.fresh(arr.strip("$"), w.SORTS[w.SPECIAL[arr]]))
+    st.assume(st.rd("$len", o.r(ann)) >= 0)
+    yield st, o.seq_new(st, "tuple", [a, va, vk, o.none(), k, o.none(), ann])
+
+
+BUILTIN_FUNCS["repr"] = b_repr
+EXTERNALS["inspect.getfullargspec"] = x_getfullargspec
+
+
+# ====================================================================== list concatenation / extension
+def _concat_into(ex, st, target, a_items, a_len, b_items, b_len):
+    from .eval_call import Schema
+    w = ex.w
+    new = w.fresh("cat_items", w.SORTS["items"])
+
+    def inst(j, new=new, a_items=a_items, a_len=a_len, b_items=b_items, b_len=b_len):
+        return z3.And(z3.Implies(z3.And(j >= 0, j < a_len), z3.Select(new, j) == z3.Select(a_items, j)),
+                      z3.Implies(z3.And(j >= a_len, j < a_len + b_len), z3.Select(new, j) == z3.Select(b_items, j - a_len)))
+    st.schemas = st.schemas + [Schema("int", inst, "list-concat")]
+    st.wr("$items", target, new)
+    st.wr("$len", target, a_len + b_len)
+
+
+def l_extend(ex, st, recv, args, kwargs, cx):
+    o = ex.o
+    if not o.refcls(st, args[0], ("list", "tuple")):
+        raise Unsupported("list.extend with a non-sequence")
+    st = st.clone()
+    a, b = o.r(recv), o.r(args[0])
+    _concat_into(ex, st, a, st.rd("$items", a), o.seq_len(st, a), st.rd("$items", b), o.seq_len(st, b))
+    yield st, o.none()
+
+
+def l_iadd(ex, st, recv, args, kwargs, cx):
+    for s1, out in l_extend(ex, st, recv, args, kwargs, cx):
+        yield s1, (out if isinstance(out, Raise) else recv)
+
+
+CONTAINER_METHODS[("list", "extend")] = l_extend
+CONTAINER_METHODS[("list", "__iadd__")] = l_iadd
